@@ -19,6 +19,18 @@ Theorem stale_has_pending_task : forall (ds : Type) (diag : text -> ds) (empty :
   forall u, stale_ok ds diag empty s u.
 Proof. intros ds diag empty s0 s H0 Hr. exact (proj2 (proj2 (Proofs.inv_reach ds diag empty s0 s H0 Hr))). Qed.
 
+(** Every step other than a workspace-diagnostic publish consumes a natural-number measure, and before
+    quiescence such a step exists: every fair execution (timers fire, tasks get the read lock -- C28) of a
+    finite history reaches quiescence. *)
+Theorem published_terminates : forall (ds : Type) (diag : text -> ds) (empty : ds) (s s' : st ds),
+  step ds diag empty true s s' ->
+  mu ds s' < mu ds s \/ (queue s' = queue s /\ mid s' = mid s /\ tasks s' = tasks s).
+Proof. exact Proofs.step_decreases. Qed.
+
+Theorem published_progress : forall (ds : Type) (diag : text -> ds) (empty : ds) (s : st ds),
+  ~ quiescent ds s -> exists s', step ds diag empty true s s' /\ mu ds s' < mu ds s.
+Proof. exact Proofs.progress. Qed.
+
 (** The unconditional `tokens.remove` does delete a newer task's token in a reachable state (so a later
     edit would not cancel that task) -- which [published_converge] shows to be harmless for convergence. *)
 Theorem token_removal_race_reachable :
